@@ -339,6 +339,7 @@ def gen_hists(tier, rng, entries):
     for e in entries:
         by_type[(e['pk'], e['T'])].append(e)
     mal = []
+    real = {(e['pkg'], e['T'], e['ptr'], e['m']) for e in entries}
     for e in entries:
         if e['generic']:
             continue
@@ -353,6 +354,8 @@ def gen_hists(tier, rng, entries):
                     mal.append(('malformed-method', [step_tok(via, e, m=c)]))
         # wrong receiver kind / wrong type text through ExportStruct
         for raw in (('' if e['ptr'] else '*') + e['T'], e['T'] + '2', e['T'][:-1] or 'z', '(*' + e['T'] + ')', e['T'] + '*'):
+            if (e['pkg'], raw.lstrip('*'), raw.startswith('*'), e['m']) in real:
+                continue    # the altered text names another real method: the callback's static types would not fit it
             mal.append(('malformed-type', [step_tok('ES', e, raw=raw)]))
         mal.append(('malformed-pkg', [step_tok('ES', e, pkg=e['pkg'] + 'x')]))
         mal.append(('malformed-pkg', [step_tok('ES', e, pkg=e['pkg'][:-1])]))
@@ -382,7 +385,7 @@ def gen_hists(tier, rng, entries):
                  (a['m'].startswith(b['m']) or b['m'].startswith(a['m']) or a['m'].lower() == b['m'].lower())]
         others = [(es[i], es[i + 1]) for i in range(len(es) - 1)]
         for a, b in (pairs + others)[:3 if tier == 'quick' else 8]:
-            common = [v for v in vias_for(a) if v in vias_for(b)]
+            common = [v for v in vias_for(a) if v in vias_for(b) and not (a['generic'] and v == 'SX')]
             for via in common:
                 H.append(('siblings', [step_tok(via, a), step_tok(via, b)]))
     # lane 4: random histories: 2..5 steps incl. re-mocks of the same method, siblings, resets, malformed steps
@@ -404,9 +407,18 @@ def gen_hists(tier, rng, entries):
                 if not e['generic']:
                     steps.append(step_tok('ES', e, m=e['m'] + 'Z'))
                 continue
-            steps.append(step_tok(rng.choice(vias_for(e)), e))
+            # by-name steps on generic instantiations (known finding C06-K1) stay out of the multi-step lanes: they patch the
+            # per-instantiation wrapper, after which a Method() mock of the same method cannot reach the shape body any more
+            # (GetInnerFunc finds no CALL in the patched wrapper) — demonstrated in its own lane below, outside the model
+            vs = [v for v in vias_for(e) if not (e['generic'] and v == 'SX')]
+            if vs:
+                steps.append(step_tok(rng.choice(vs), e))
         if steps:
             H.append(('random', steps))
+    # lane 5: the C06-K1 follow-up, oracle only (the Lean model does not cover a patched generic wrapper)
+    gex = [e for e in entries if e['generic'] and e['m'][0].isupper()]
+    for e in gex[:4 if tier == 'quick' else 20]:
+        H.append(('k1-poison', [step_tok('SX', e), step_tok('SM', e)]))
     return H
 
 
@@ -492,7 +504,10 @@ def oracle(steps, obs, entries, index):
             # a later step on a same-shape sibling legitimately overwrites the shared body
             if entries[i]['generic'] and any(call_sym(entries[j]) == call_sym(entries[i]) and kk > k for j, kk in expect.items() if j != i):
                 continue
-            return f'{entries[i]["pkg"]}.{entries[i]["go"]}.{entries[i]["m"]} named by step {k} still runs its original body', None, notes
+            poisoned = entries[i]['generic'] and any(
+                tk != 'R' and not tk.startswith('SM') and step_target(tk, entries, index) is entries[i] for tk in steps[:k])
+            return (f'{entries[i]["pkg"]}.{entries[i]["go"]}.{entries[i]["m"]} named by step {k} still runs its original body',
+                    'generic-byname' if poisoned else None, notes)
     if after != 'clean':
         return 'after Reset some method does not run its original body', None, notes
     if gap:
@@ -611,7 +626,8 @@ def run(tier):
     hard = [b for b in bad if b[2] is None]
     if model is None:
         proof['failed'].append(('goomdrv', 'driver does not build: ' + derr[-500:]))
-    diffs = [(i, hists[i], impl[i], model[i]) for i in range(len(hists)) if model is not None and impl[i] != model[i]]
+    diffs = [(i, hists[i], impl[i], model[i]) for i in range(len(hists))
+             if model is not None and impl[i] != model[i] and lanes[i][0] != 'k1-poison']
     if missing and not hard:
         out.violation(f'linker-name SPEC of the model is wrong for this toolchain: {missing[0]} is not a symbol of the probe binary',
                       {'kind': 'model-validation', 'missing': missing[:10]}, no_failing_input=True)
